@@ -135,13 +135,11 @@ func init() {
 		func() {
 			defer func() { recover() }()
 			p := drv.New(typ)
-			var sw sliceWriter
-			mq.Dump(&sw, p)
-			toks := strings.Fields(p.String() + " " + string(sw.b))
+			toks := strings.Fields(p.String())
 			for i, w := range toks {
-				cands := []string{w}
+				cands := []string{w, strings.TrimRight(w, ",;:.")}
 				if i+1 < len(toks) {
-					cands = append(cands, w+" "+toks[i+1])
+					cands = append(cands, w+" "+toks[i+1], w+" "+strings.TrimRight(toks[i+1], ",;:."))
 				}
 				for _, x := range cands {
 					if len(x) >= 3 && len(x) <= 24 && !seen[x] && !strings.Contains(x, "bytes") {
